@@ -56,6 +56,9 @@ Definition doc_events (l : list doc) : list (nat * nat * nat * list (nat * Z)) :
   flat_map (fun d => match d with DEvent r n sq dt => [(r, n, sq, dt)] | _ => [] end) l.
 Definition doc_stops (l : list doc) : list doc :=
   flat_map (fun d => match d with DStop r st_ rs num => [DStop r st_ rs num] | _ => [] end) l.
+(* the documents that open and close runs, in order *)
+Definition doc_rundocs (l : list doc) : list doc :=
+  flat_map (fun d => match d with DStart r => [DStart r] | DStop r st_ rs num => [DStop r st_ rs num] | _ => [] end) l.
 Definition obs_docs (o : list obs) : list doc :=
   flat_map (fun x => match x with ODoc d => [d] | _ => [] end) o.
 (* the same two projections as Props/C03.v *)
@@ -63,6 +66,8 @@ Definition final_events (o : list obs) : list (nat * nat * nat * list (nat * Z))
   flat_map (fun x => match x with ODoc (DEvent r n sq dt) => [(r, n, sq, dt)] | _ => [] end) o.
 Definition stops (o : list obs) : list doc :=
   flat_map (fun x => match x with ODoc (DStop r st_ rs num) => [DStop r st_ rs num] | _ => [] end) o.
+Definition rundocs (o : list obs) : list doc :=
+  flat_map (fun x => match x with ODoc (DStart r) => [DStart r] | ODoc (DStop r st_ rs num) => [DStop r st_ rs num] | _ => [] end) o.
 Definition no_raise (o : list obs) : bool :=
   forallb (fun x => match x with
                     | OOut (OutRaise _) _ _ _ => false
